@@ -667,6 +667,13 @@ def insert_virtuals(r, spec, nmax, declare_form, declare_length, prefix="k"):
     return root
 
 
+def drop_reordered(spec):
+    if spec["k"] == "virtual":
+        spec.pop("reordered", None)
+    for c in ([spec["content"]] if "content" in spec else spec.get("contents", [])):
+        drop_reordered(c)
+
+
 def virtual_keys(spec, out=None):
     out = out if out is not None else []
     if spec["k"] == "virtual":
